@@ -41,5 +41,6 @@ try:
             print("   |", t)
 finally:
     subprocess.run(["git", "-C", "/repo", "worktree", "remove", "--force", wt])
-    subprocess.run(["./check", "regen"], cwd="/verif", stdout=subprocess.DEVNULL)
+    subprocess.run(["./check", "regen"], cwd="/verif", stdout=subprocess.DEVNULL,
+                   env=dict(os.environ, VERIF_REGEN_ONLY=",".join(props)))
 json.dump(res, open(os.path.join(a.dir, "seedtest_result.json"), "w"), indent=1)
